@@ -12,11 +12,22 @@ import (
 
 // ---- C02: location paths → navigation requests (recording mock), C05: fault at every callback ----
 
+// runPathCase compiles once and runs the machine twice on fresh trees: a compiled machine carries no state
+// from one run to the next (C06), so both runs must give the observation the model gives for one.
 func runPathCase(text string, failAt int) string {
 	mach, err := expr.NewExprMachine(text, nil)
 	if err != nil {
 		return "build:" + canonBuild(text, nil, err, false)
 	}
+	first := runPathOnce(mach, failAt)
+	second := runPathOnce(mach, failAt)
+	if first != second {
+		return "RERUN-DIFFERS: " + first + " || " + second
+	}
+	return first
+}
+
+func runPathOnce(mach *xpath.Machine, failAt int) string {
 	tree := &mockTree{hash: true, failAt: failAt, failErr: fmt.Errorf("injected-fault-%d", failAt)}
 	res := xpath.NewCtxFromCurrent(gocontext.Background(), mach, &mockEntry{t: tree}).Run()
 	out := strings.Join(tree.calls, ";") + " => "
